@@ -1,6 +1,7 @@
 package sim
 
 import (
+	"context"
 	"fmt"
 	"math/rand"
 	"time"
@@ -273,4 +274,66 @@ func indexOf(c *ref.Committee, id string) int {
 		}
 	}
 	return -1
+}
+
+// ScriptCommitteeRetries (C18): the consumer's RequestOrderedCommittee fails several times in a row when a round starts (the
+// library polls it every 200 ms of real time) and then answers; RequestCommitteeForBlockProof — the unordered committee, which
+// the fake hands out in another order — works all the time. Whatever happens meanwhile, the node's rotation must run over the
+// ordered committee: the member at position 0 proposes in view 0 and nobody else does, the first timeout's vote goes to
+// position 1.
+func ScriptCommitteeRetries(seed int64, worlds int) ([]Violation, int, int) {
+	rng := rand.New(rand.NewSource(seed))
+	var viol []Violation
+	judged, dests := 0, 0
+	for i := 0; i < worlds; i++ {
+		n := 4 + rng.Intn(3)
+		weights := make([]uint64, n)
+		for k := range weights {
+			weights[k] = 1
+		}
+		me := []int{0, n - 1, rng.Intn(n)}[i%3]
+		var byz []string
+		for k := 0; k < n; k++ {
+			if k != me {
+				byz = append(byz, fmt.Sprintf("nd%02d", k))
+			}
+		}
+		myId := fmt.Sprintf("nd%02d", me)
+		w := scriptedWorld(weights, byz, 1)
+		node := w.Nodes[myId]
+		fails := 5 + rng.Intn(3)
+		node.Mem.OnRequest = func(ctx context.Context, h uint64) error {
+			if fails > 0 {
+				fails--
+				return fmt.Errorf("committee contract temporarily unavailable")
+			}
+			return nil
+		}
+		w.Start()
+		c := w.Comm(1)
+		proposed := false
+		for _, f := range w.Seen {
+			if f.Honest && f.From == myId && f.Msg != nil && f.Msg.Env == ref.EnvPP && f.Msg.H == 1 && f.Msg.V == 0 {
+				proposed = true
+			}
+		}
+		judged++
+		if proposed != (c.Leader(0) == myId) {
+			viol = append(viol, Violation{Prop: "C18", Rule: "view-0-proposal-decided-over-another-committee-order", Detail: fmt.Sprintf("n=%d node=%s (position %d of the ordered committee), RequestOrderedCommittee failed several times before answering: the node proposed in view 0 = %v, the member at position 0 is %s", n, myId, me, proposed, c.Leader(0)), Step: len(w.Trace)})
+		}
+		before := w.Mon.Stats["C18 view change destinations judged"]
+		w.Timeout(node)
+		dests += w.Mon.Stats["C18 view change destinations judged"] - before
+		for _, x := range w.Mon.Viol {
+			if x.Prop == "C18" {
+				x.Detail = fmt.Sprintf("n=%d node=%s after failing committee requests: %s", n, myId, x.Detail)
+				viol = append(viol, x)
+			}
+		}
+		w.release()
+		if len(viol) > 0 {
+			break
+		}
+	}
+	return viol, judged, dests
 }
